@@ -529,6 +529,10 @@ def call(fn, args=(), kw=()):
         return binop("&" if name == "np.logical_and" else "|", args[0], args[1])  # on Boolean arrays: the operator form
     if name == "np.logical_not" and len(args) == 1 and not kw and _boolean_valued(args[0]):
         return unop("~", args[0])
+    if name == "np.concatenate" and len(args) == 1 and len(kw) == 1 and kw[0][0] == "axis" and is_const(kw[0][1], 0) and args[0].op in ("tuple", "list") and any(z.op == "call" and callee_name(z.a[0]) == "np.atleast_2d" and len(z.a[1]) == 1 for z in args[0].a):
+        # np.concatenate((np.atleast_2d(row), A), axis=0) is np.vstack((row, A))
+        parts_ = [z.a[1][0] if (z.op == "call" and callee_name(z.a[0]) == "np.atleast_2d" and len(z.a[1]) == 1) else z for z in args[0].a]
+        return call(ext("np.vstack"), (tup(parts_),))
     if name == "np.array_equal" and len(args) == 2 and not kw:
         return call(ext("np.all"), (cmp("==", args[0], args[1]),))  # (for operands of one shape, as everywhere in this code)
     if name == "np.invert" and len(args) == 1 and not kw and _boolean_valued(args[0]):
@@ -643,6 +647,9 @@ def sub(base, idx):
     # an element-wise function of a shape tuple, indexed: np.log2(x.shape)[k] is np.log2(x.shape[k])
     if base.op == "call" and callee_name(base.a[0]) in ("np.log2", "np.log", "np.sqrt", "np.abs", "np.exp", "np.log10") and len(base.a[1]) == 1 and not base.a[2] and base.a[1][0].op == "attr" and base.a[1][0].a[1] == "shape" and idx.op == "const" and isinstance(idx.a[0], float):
         return call(base.a[0], (sub(base.a[1][0], idx),))
+    # np.argwhere(m)[i, k] is np.where(m)[k][i]
+    if base.op == "call" and callee_name(base.a[0]) == "np.argwhere" and len(base.a[1]) == 1 and idx.op == "tuple" and len(idx.a) == 2 and all(z.op == "const" for z in idx.a):
+        return sub(sub(call(ext("np.where"), base.a[1]), idx.a[1]), idx.a[0])
     # x.shape[0] is len(x)
     if base.op == "attr" and base.a[1] == "shape" and idx.op == "const" and idx.a[0] == 0 and not isinstance(idx.a[0], bool) and not (base.a[0].op == "call" and (callee_name(base.a[0].a[0]) or "").endswith(".outer")):
         return call(mk("builtin", "len"), (base.a[0],))
